@@ -438,5 +438,9 @@ def run(chk):
     sphere(chk)
     chk.section("Polygon.compute_form_factor_amplitude", "coxeter.shapes.polygon::Polygon.compute_form_factor_amplitude", lambda: polygon_ff(chk))
     chk.section("Polyhedron.compute_form_factor_amplitude", "coxeter.shapes.polyhedron::Polyhedron.compute_form_factor_amplitude", lambda: polyhedron_ff(chk))
+    from .common import inherits
+    _sh = chk.loader().load("coxeter.shapes")
+    inherits(chk, _sh, "ConvexPolyhedron", "Polyhedron", ["compute_form_factor_amplitude"], "coxeter.shapes.polyhedron")
+    inherits(chk, _sh, "ConvexPolygon", "Polygon", ["compute_form_factor_amplitude"], "coxeter.shapes.polygon")
     from .bounded_c12 import run_bounded
     run_bounded(chk)
